@@ -396,3 +396,146 @@ Proof.
     rewrite Ecz. exact Etext.
   - exact Etext.
 Qed.
+
+(* ======================================================================================================
+   Part B: the table the writer carries along ([known], the merge of the sections written so far, newest first) names every
+   member of an object stream in ITS container, whatever later parts supersede: no later part can list a member's number,
+   given the domain clause [Hdom] (a part's mp_nums names no member of an object stream).  This is the writer half of the
+   hypothesis of C02_merge_object_streams (every member is one the MERGED table places in its container).
+   ====================================================================================================== *)
+Section Known.
+  Variable st : fstyle.
+  Variable a : adoc.
+  Variable tops : list top.
+  Notation comp := (compressed_nums st).
+
+  Fixpoint final_known (parts : list mpart) (pos : N) (prev : option N) (known : list (N * sentry)) (maxnum : N) : list (N * sentry) :=
+    match parts with
+    | [] => known
+    | p :: rest =>
+      final_known rest (pos + N.of_nat (length (g_text st a tops p (g_last rest) pos prev known maxnum)))
+                  (Some (g_xpos st a tops p pos)) (g_known st a tops p pos known maxnum) (g_size st a tops p maxnum - 1)
+    end.
+
+  Hypothesis Hcomp : NoDup comp.
+  Hypothesis Htopn : forall t, In t tops -> ~ In (fst (fst (fst t))) comp.
+
+  Definition part_dom (p : mpart) : Prop :=
+    (forall n, In n (mp_nums p) -> ~ In n comp) /\ (forall n, In n (g_xid p) -> ~ In n comp).
+
+  Lemma lookup_entry_map' (f : N -> sentry) known : forall l n,
+    lookup_entry (map (fun k => (k, f k)) l ++ known) n = if mem_N n l then Some (f n) else lookup_entry known n.
+  Proof.
+    induction l as [|k l IH]; intro n; [reflexivity|]. cbn [map app lookup_entry mem_N existsb]. rewrite IH. unfold mem_N.
+    rewrite (N.eqb_sym n k). destruct (k =? n) eqn:E; [apply N.eqb_eq in E; subst; reflexivity|reflexivity].
+  Qed.
+
+  Lemma conts_members p n : In n (flat_map os_members (g_conts st p)) -> In n comp.
+  Proof.
+    intro H. apply in_flat_map in H as [s [H1 H2]]. unfold g_conts, part_containers in H1. apply filter_In in H1 as [H1 _].
+    unfold compressed_nums. apply in_flat_map. exists s. split; assumption.
+  Qed.
+
+  Lemma part_defines_eq p : part_defines st p = mp_nums p ++ flat_map os_members (g_conts st p).
+  Proof. reflexivity. Qed.
+
+  (* a member's number is not the number of a top-level object written in part [p] *)
+  Lemma member_no_offset p rest pos n :
+    part_dom p -> Forall part_dom rest ->
+    forallb (fun no => mem_N (fst no) (flat_map (part_defines st) rest)) (mp_old p) = true ->
+    In n comp -> (forall q, In q rest -> ~ In n (flat_map os_members (g_conts st q))) ->
+    find_off (g_offs st a tops p pos) n = None.
+  Proof.
+    intros [Hd1 Hd2] Hr Hold Hn Hlater. apply find_off_none. unfold g_offs. rewrite map_app, offs_of_nums, map_map. cbn [fst]. rewrite map_id.
+    intro K. apply in_app_or in K as [K|K]; [|exact (Hd2 n K Hn)].
+    apply in_map_iff in K as [t [K1 K2]]. unfold g_otops in K2. apply ordered_In in K2. unfold g_mine in K2. apply in_app_or in K2 as [K2|K2].
+    - apply filter_In in K2 as [K2 _]. apply (Htopn t K2). rewrite K1. exact Hn.
+    - unfold g_olds in K2. apply in_flat_map in K2 as [no [K3 K4]]. destruct (find_obj (a_objs a) (fst no)) as [[g o]|]; [|contradiction].
+      destruct K4 as [<-|[]]. cbn [fst] in K1.
+      pose proof (proj1 (forallb_forall _ _) Hold no K3) as K5. apply mem_N_In' in K5. rewrite K1 in K5.
+      apply in_flat_map in K5 as [q [K6 K7]]. rewrite part_defines_eq in K7. apply in_app_or in K7 as [K7|K7].
+      + pose proof (proj1 (Forall_forall _ _) Hr q K6) as [Hq _]. exact (Hq n K7 Hn).
+      + exact (Hlater q K6 K7).
+  Qed.
+
+  (* a member of no remaining part keeps the entry it has *)
+  Lemma final_known_keeps : forall parts pos prev known maxnum r,
+    write_parts st a tops parts pos prev known maxnum = Some r -> Forall part_dom parts ->
+    forall n, In n comp -> (forall q, In q parts -> ~ In n (flat_map os_members (g_conts st q))) ->
+    lookup_entry (final_known parts pos prev known maxnum) n = lookup_entry known n.
+  Proof.
+    induction parts as [|p rest IH]; intros pos prev known maxnum r Hw Hdom n Hn Hnot; [reflexivity|].
+    rewrite write_parts_step_os in Hw. cbn [final_known].
+    match type of Hw with (if ?c then _ else _) = _ => destruct c eqn:C1 end; [discriminate Hw|].
+    apply negb_false_iff in C1. apply andb_true_iff in C1 as [C1 _]. apply andb_true_iff in C1 as [_ C1].
+    inversion Hdom as [|? ? Hp Hr]; subst.
+    assert (Hw' : exists r', write_parts st a tops rest (pos + N.of_nat (length (g_text st a tops p (g_last rest) pos prev known maxnum)))
+                               (Some (g_xpos st a tops p pos)) (g_known st a tops p pos known maxnum) (g_size st a tops p maxnum - 1) = Some r').
+    { destruct (mp_xref p); [destruct (g_conts st p); [|discriminate Hw]|];
+        (match type of Hw with (if ?c then _ else _) = _ => destruct c end; [discriminate Hw|]);
+        (match type of Hw with match ?w with Some _ => _ | None => _ end = _ => destruct w as [r'|] end; [exists r'; reflexivity|discriminate Hw]). }
+    destruct Hw' as [r' Hw'].
+    rewrite (IH _ _ _ _ r' Hw' Hr n Hn (fun q Hq => Hnot q (or_intror Hq))).
+    unfold g_known. rewrite lookup_entry_map'.
+    destruct (mem_N n (filter (g_here st a tops p pos) (range_N 0 (N.to_nat (g_size st a tops p maxnum))))) eqn:Em; [exfalso|reflexivity].
+    apply mem_N_In' in Em. apply filter_In in Em as [_ Em]. unfold g_here, g_ehere in Em.
+    rewrite (member_no_offset p rest pos n Hp Hr C1 Hn (fun q Hq => Hnot q (or_intror Hq))) in Em.
+    destruct (find_comp (g_conts st p) n) as [[c k]|] eqn:Ef; [|discriminate Em].
+    apply find_comp_In in Ef as [s [K1 K2]]. apply (Hnot p (or_introl eq_refl)). apply in_flat_map. exists s. split; assumption.
+  Qed.
+
+  Lemma NoDup_app_r' {A} : forall (l1 l2 : list A), NoDup (l1 ++ l2) -> NoDup l2.
+  Proof. induction l1 as [|x l1 IH]; intros l2 H; [exact H|]. cbn [app] in H. inversion H; subst. apply IH. assumption. Qed.
+
+  (* THE MEMBERS: after all parts, the table names every member in the container of the part that holds it *)
+  Theorem known_names_members : forall parts pos prev known maxnum r,
+    write_parts st a tops parts pos prev known maxnum = Some r -> Forall part_dom parts -> NoDup (flat_map mp_nums parts) ->
+    forall p n c k, In p parts -> find_comp (g_conts st p) n = Some (c, k) ->
+    lookup_entry (final_known parts pos prev known maxnum) n = Some (SComp c k).
+  Proof.
+    induction parts as [|p0 rest IH]; intros pos prev known maxnum r Hw Hdom Hnd p n c k Hp Hf; [contradiction|].
+    pose proof Hw as Hw0. rewrite write_parts_step_os in Hw. cbn [final_known].
+    match type of Hw with (if ?c then _ else _) = _ => destruct c eqn:C1 end; [discriminate Hw|].
+    apply negb_false_iff in C1. apply andb_true_iff in C1 as [C1 _]. apply andb_true_iff in C1 as [_ C1].
+    inversion Hdom as [|? ? Hp0 Hr]; subst.
+    cbn [flat_map] in Hnd. pose proof (NoDup_app_r' _ _ Hnd) as Hnd'.
+    assert (Hw' : exists r', write_parts st a tops rest (pos + N.of_nat (length (g_text st a tops p0 (g_last rest) pos prev known maxnum)))
+                               (Some (g_xpos st a tops p0 pos)) (g_known st a tops p0 pos known maxnum) (g_size st a tops p0 maxnum - 1) = Some r').
+    { destruct (mp_xref p0); [destruct (g_conts st p0); [|discriminate Hw]|];
+        (match type of Hw with (if ?c then _ else _) = _ => destruct c end; [discriminate Hw|]);
+        (match type of Hw with match ?w with Some _ => _ | None => _ end = _ => destruct w as [r'|] end; [exists r'; reflexivity|discriminate Hw]). }
+    destruct Hw' as [r' Hw'].
+    destruct Hp as [<-|Hp]; [|apply (IH _ _ _ _ r' Hw' Hr Hnd' p n c k Hp Hf)].
+    (* the part that holds the container *)
+    pose proof (find_comp_In _ _ _ _ Hf) as [s [Hs Hm]].
+    assert (Hn : In n comp) by (apply (conts_members p0); apply in_flat_map; exists s; split; assumption).
+    assert (Hlater : forall q, In q rest -> ~ In n (flat_map os_members (g_conts st q))).
+    { intros q Hq K. apply in_flat_map in K as [s' [K1 K2]].
+      assert (Es : s' = s).
+      { unfold g_conts, part_containers in Hs, K1. apply filter_In in Hs as [Hs _]. apply filter_In in K1 as [K1 _].
+        clear -Hcomp Hs K1 Hm K2. unfold compressed_nums in Hcomp. induction (s_ostms st) as [|s0 l IHl]; [contradiction|].
+        cbn [flat_map] in Hcomp. pose proof (NoDup_app_r' _ _ Hcomp) as Hc'.
+        assert (Hx : forall u, In u l -> In n (os_members u) -> In n (os_members s0) -> False).
+        { intros u Hu Hnu Hn0. clear -Hcomp Hu Hnu Hn0. induction (os_members s0) as [|m ms IHm]; [contradiction|].
+          cbn [app] in Hcomp. inversion Hcomp as [|? ? Hni Hnd]; subst. destruct Hn0 as [->|Hn0]; [|apply IHm; assumption].
+          apply Hni. apply in_or_app. right. apply in_flat_map. exists u. split; assumption. }
+        destruct Hs as [<-|Hs]; destruct K1 as [<-|K1]; [reflexivity|exfalso; apply (Hx s' K1 K2 Hm)|exfalso; apply (Hx s Hs Hm K2)|apply IHl; assumption]. }
+      subst s'. unfold g_conts, part_containers in Hs, K1. apply filter_In in Hs as [_ Hs]. apply filter_In in K1 as [_ K1].
+      apply mem_N_In' in Hs. apply mem_N_In' in K1.
+      clear -Hnd Hs K1 Hq. induction (mp_nums p0) as [|m ms IHm]; [contradiction|]. cbn [app] in Hnd. inversion Hnd as [|? ? Hni Hnd2]; subst.
+      destruct Hs as [->|Hs]; [|apply IHm; assumption]. apply Hni. apply in_or_app. right. apply in_flat_map. exists q. split; assumption. }
+    rewrite (final_known_keeps rest _ _ _ _ r' Hw' Hr n Hn Hlater).
+    unfold g_known. rewrite lookup_entry_map'.
+    assert (Eh : g_ehere st a tops p0 pos n = SComp c k).
+    { unfold g_ehere. rewrite (member_no_offset p0 rest pos n Hp0 Hr C1 Hn Hlater), Hf. reflexivity. }
+    assert (Ehere : g_here st a tops p0 pos n = true) by (unfold g_here; rewrite Eh; reflexivity).
+    assert (Hrange : In n (range_N 0 (N.to_nat (g_size st a tops p0 maxnum)))).
+    { apply range_N_In. rewrite N2Nat.id. split; [lia|]. unfold g_size.
+      assert (n <= max_num (g_hnums st a tops p0 ++ g_xid p0 ++ flat_map os_members (g_conts st p0))).
+      { unfold max_num. apply fold_max_ge. apply in_or_app. right. apply in_or_app. right. apply in_flat_map. exists s. split; assumption. }
+      lia. }
+    replace (mem_N n (filter (g_here st a tops p0 pos) (range_N 0 (N.to_nat (g_size st a tops p0 maxnum))))) with true.
+    - unfold g_entry. rewrite Ehere, Eh. reflexivity.
+    - symmetry. apply mem_N_In'. apply filter_In. split; [exact Hrange|exact Ehere].
+  Qed.
+End Known.
